@@ -8,7 +8,7 @@ import math
 
 from . import pe as P
 from .pe import (Tensor, Obj, Func, ClassRef, Ext, ShapeV, Opaque, C, fr,
-                 is_num, mkfloat, is_floaty, PyRaise, FloatTag, Mock)
+                 is_num, mkfloat, is_floaty, PyRaise, FloatTag, Mock, NArr)
 from .nf import log2_exact
 
 # canonical names -> elementwise unary application name
@@ -36,7 +36,7 @@ UNARY = {
 IDENTITY = {
     "K.cast_to_floatx", "tf.identity", "tf.convert_to_tensor", "tf.constant",
     "np.array", "np.asarray", "K.constant", "K.eval", "np.float32",
-    "K.get_value", "tf.squeeze", "tf.expand_dims", "K.expand_dims",
+    "K.get_value", "tf.squeeze",
     "K.variable", "float32", "tf.ensure_shape", "tf.broadcast_to",
     "tf.debugging.check_numerics", "K.flatten", "typing.cast", "cast",
 }
@@ -243,7 +243,8 @@ def call(pe, name, args, kwargs, node):
       raise PyRaise("TypeError", "range() of %r" % (vals,))
     if not all(is_num(v) for v in vals):
       pe.err("range over non-constant %r" % (vals,), node)
-    return list(range(*[int(fr(v)) for v in vals]))
+    r = list(range(*[int(fr(v)) for v in vals]))
+    return r if name == "range" else NArr(r)
   if name in ("list", "tuple", "sorted", "set", "reversed"):
     if not args:
       return [] if name != "tuple" else ()
@@ -523,6 +524,26 @@ def call(pe, name, args, kwargs, node):
     return unary(pe, "round", args[0])
   if name in UNARY:
     return unary(pe, UNARY[name], args[0])
+  if name in ("np.asarray", "np.array") and args and isinstance(
+      args[0], (list, range, tuple)) and not isinstance(args[0], NArr) and \
+      all(is_num(e) and not isinstance(e, bool) for e in args[0]) and \
+      len(args[0]) > 0:
+    return NArr(args[0])
+  if name in ("tf.range", "np.arange", "K.arange") and args and all(
+      is_num(a) for a in args):
+    return NArr(range(*[int(fr(a)) for a in args]))
+  if name in ("np.where", "tf.where") and len(args) == 3 and isinstance(
+      args[0], NArr):
+    c, a, b = args
+    pick = lambda v, i: v[i] if isinstance(v, NArr) else v
+    return NArr(pick(a, i) if c[i] else pick(b, i) for i in range(len(c)))
+  if name in ("tf.concat", "K.concatenate", "np.concatenate") and args and \
+      isinstance(args[0], (list, tuple)) and args[0] and all(
+          isinstance(v, NArr) for v in args[0]):
+    out = NArr()
+    for v in args[0]:
+      out.extend(v)
+    return out
   if name in IDENTITY:
     if not args:
       return kwargs.get("value", kwargs.get("x"))
@@ -673,6 +694,29 @@ def call(pe, name, args, kwargs, node):
     dims = tuple(int(fr(d)) for d in pe.iterate(shp)) \
         if isinstance(shp, (list, tuple, ShapeV)) else None
     return T(pe, ("app", "reshape", (dims,), (x.term,)), dims)
+  if name in ("tf.expand_dims", "K.expand_dims", "np.expand_dims"):
+    x = arg(args, kwargs, 0, "input", kwargs.get("x"))
+    axis = arg(args, kwargs, 1, "axis", -1)
+    if not isinstance(x, Tensor):
+      return x
+    shp = None
+    ax = int(fr(axis)) if is_num(axis) else None
+    if x.shape is not None and ax is not None:
+      r = len(x.shape) + 1
+      k = ax % r
+      shp = tuple(x.shape[:k]) + (1,) + tuple(x.shape[k:])
+    return T(pe, ("app", "expand_dims", (ax,), (x.term,)), shp)
+  if name in ("tf.tile", "K.tile", "np.tile"):
+    x = arg(args, kwargs, 0, "input", kwargs.get("x"))
+    mult = arg(args, kwargs, 1, "multiples", kwargs.get("n"))
+    if not isinstance(x, Tensor):
+      return x
+    ms = tuple(int(fr(m)) for m in pe.iterate(mult)) if isinstance(
+        mult, (list, tuple, ShapeV)) else None
+    shp = None
+    if x.shape is not None and ms is not None and len(ms) == len(x.shape):
+      shp = tuple(d * m for d, m in zip(x.shape, ms))
+    return T(pe, ("app", "tile", (ms,), (x.term,)), shp)
   if name == "tf.repeat" or name == "K.repeat_elements" or \
       name == "np.repeat":
     x = arg(args, kwargs, 0, "input", kwargs.get("x"))
@@ -690,7 +734,7 @@ def call(pe, name, args, kwargs, node):
   if name in ("tf.concat", "K.concatenate", "np.concatenate"):
     vals = pe.iterate(args[0])
     if all(isinstance(v, (list, tuple)) for v in vals):
-      out = []
+      out = NArr() if vals and all(isinstance(v, NArr) for v in vals) else []
       for v in vals:
         out.extend(v)
       return out
